@@ -100,7 +100,9 @@ Test2(c) ==
        /\ IF v THEN stage' = "fitted" /\ final' = c.g ELSE UNCHANGED <<stage, final>>
   /\ UNCHANGED <<tab, cfg, g1>>
 
-Next == Start \/ Start2 \/ Exhausted \/ (\E c \in untested : Test1(c) \/ Test2(c))
+Test1Any == \E c \in untested : Test1(c)
+Test2Any == \E c \in untested : Test2(c)
+Next == Start \/ Start2 \/ Exhausted \/ Test1Any \/ Test2Any
 Spec == Init /\ [][Next]_vars
 
 -----------------------------------------------------------------------------
